@@ -84,6 +84,8 @@ class Block:
             # round min trials up to multiple of sustain
             if (self.min_trials//count) * count != self.min_trials:
                 self.min_trials = ((self.min_trials//count) + 1) * count
+                # validation may have asked for (and cached) the trial count before this rounding
+                self._trials_per_sample = None
 
     def sep_continuous_factors(self, 
                              design: List[Factor])->List[Factor]:
